@@ -264,10 +264,21 @@ def run_real(case: dict):
             d = Path(tempfile.mkdtemp(prefix="ft_lb_", dir="/tmp"))
             try:
                 for i in range(a.shape[0]):
-                    tifffile.imwrite(d / f"frame_{i}.tif", a[i])
+                    fr = a[i]
+                    if case.get("tif_mixed"):
+                        # every frame written in the narrowest dtype that holds its labels
+                        fr = fr.astype(np.uint8 if int(fr.max(initial=0)) < 256 else np.uint16)
+                    tifffile.imwrite(d / f"frame_{i}.tif", fr)
                 b = CSVTracksBuilder()
                 b.prepare(df)
-                tracks = b.build(df, d)
+                try:
+                    tracks = b.build(df, d)
+                except ValueError as e:
+                    if case.get("tif_mixed") and "dtype" in str(e):
+                        # frames of different dtypes cannot be stacked lazily: refused as a whole
+                        # (repaired defect D22; before, the wider frames were wrapped silently)
+                        return "refused:mixed-dtype", {"out": None, "refused": True}
+                    raise
                 out = np.asarray(tracks.segmentation)
             finally:
                 shutil.rmtree(d, ignore_errors=True)
@@ -314,6 +325,8 @@ def run_real(case: dict):
 def oracle(case: dict, payload: dict) -> tuple[str, str] | None:
     """returns (signature, what) on a property failure, else None"""
     fn = case["fn"]
+    if payload.get("refused"):
+        return None
     a = arr_of(case)
     out = payload.get("out")
     if fn == "ensure_unique":
@@ -467,6 +480,11 @@ CORPUS = {
          "rows": [[3, 3, 0]], "gnodes": [3], "edges": [], "dask": False, "mode": "corpus"},
         {"fn": "import", "shape": [1, 2, 2], "dtype": "uint16", "data": [1, 2, 0, 0],
          "rows": [[2, 1, 0], [1, 2, 0]], "gnodes": [2, 1], "edges": [], "dask": False, "mode": "corpus"},
+        # D22: a folder of per-frame TIFFs, the middle frame uint16 with label 300 after a uint8 first
+        # frame (before the repair the lazily stacked array wrapped 300 to 44: node 2 lost its mask)
+        {"fn": "import", "shape": [3, 2, 2], "dtype": "uint16", "data": [7, 7, 0, 0, 0, 300, 300, 0, 9, 0, 0, 9],
+         "rows": [[1, 7, 0], [2, 300, 1], [3, 9, 2]], "gnodes": [1, 2, 3], "edges": [[1, 2], [2, 3]],
+         "dask": False, "mode": "corpus", "tif_folder": True, "tif_mixed": True},
     ],
 }
 
@@ -738,6 +756,15 @@ def gen_relabel(rng: random.Random, public: bool, illformed: bool = False) -> di
                 dask=rng.random() < 0.3)
     if tif:
         case["tif_folder"] = True
+        ks = sorted({r[2] for r in rows if r[2] >= 1})
+        if ks and np.dtype(dtype).itemsize >= 2 and rng.random() < 0.5:
+            # one later frame holds labels >= 256 while the first frames fit a byte, and every frame
+            # file is written in the narrowest dtype that holds it
+            k = rng.choice(ks)
+            npx = int(np.prod(shape[1:]))
+            case["data"] = [v + 256 if (v and i // npx == k) else v for i, v in enumerate(case["data"])]
+            case["rows"] = [[r[0], r[1] + 256, r[2]] if r[2] == k else list(r) for r in rows]
+            case["tif_mixed"] = True
     elif public and dtype != "uint64" and len(shape) >= 3 and rng.random() < 0.06:
         case["tif_file"] = True
     if not public and rng.random() < 0.15:
@@ -986,7 +1013,7 @@ def _shard(args) -> Result:
         res.count(f"ndim:{len(case['shape'])}")
         res.count(f"frames:{case['shape'][1] if case.get('multiseg') else case['shape'][0]}")
         res.count(f"dtype:{case['dtype']}")
-        for tag in ("layout", "tif_folder", "tif_file", "pre_edges"):
+        for tag in ("layout", "tif_folder", "tif_mixed", "tif_file", "pre_edges"):
             if case.get(tag) not in (None, "C", False):
                 res.count(f"variant:{tag}")
         if case.get("illformed"):
@@ -1038,6 +1065,10 @@ def _shard(args) -> Result:
                 res.failures.append(Failure("oracle", prop, sig,
                                             f"real code raised {r['exc']} on an input in the property's domain",
                                             {"case": case}))
+            continue
+        if r["canon"] == "refused:mixed-dtype":
+            res.count("tif-folder-of-mixed-dtypes-refused")
+            res.nontrivial.add(h(case))
             continue
         if nontrivial(case, r["out"]):
             res.nontrivial.add(h(case))
